@@ -261,11 +261,55 @@ Definition prop_readset_within_needed (args : list bytes) : bytes :=
   | _ => bs "badargs"
   end.
 
+(* [ver; plan; signature tables; pool event ...] -> the verdict of every (provider, event) pair of
+   the plan: the model is a function, so a pair has one verdict however often and after whatever it
+   is evaluated *)
+Definition run_repeat (args : list bytes) : bytes :=
+  match args with
+  | ver :: steps :: sigs :: pool =>
+      match flags_of_version ver, parse_json steps, parse_json sigs, parse_all pool with
+      | Some f, Some (JArr sts), Some (JArr tbls), Some evs =>
+          let so := sig_of_tables evs tbls in
+          join_bytes comma (map (fun pe => verdict_bytes (Some (allowed9 so f (snd pe) (p_auths (fst pe)))))
+                                (decode_steps evs 0 sts))
+      | _, _, _, _ => bs "badargs"
+      end
+  | _ => bs "badargs"
+  end.
+
+(* specification side, decided on the implementation's verdicts alone: two entries of the plan
+   that name the same auth events (same order) and the same event carry the same verdict *)
+Fixpoint same_verdicts (sts : list json) (vs : list bytes) : bool :=
+  match sts, vs with
+  | st :: sts', v :: vs' =>
+      (fix scan (l : list json) (ws : list bytes) : bool :=
+         match l, ws with
+         | st2 :: l', w :: ws' => (negb (json_eqb st st2) || bytes_eqb v w) && scan l' ws'
+         | _, _ => true
+         end) sts' vs' && same_verdicts sts' vs'
+  | [], [] => true
+  | _, _ => false
+  end.
+
+Definition prop_same_on_every_evaluation (args : list bytes) : bytes :=
+  match last_arg args with
+  | Some (_ver :: steps :: _, obs) =>
+      match parse_json steps with
+      | Some (JArr sts) =>
+          if same_verdicts sts (split_commas obs) then bs "ok"
+          else bs "FAIL the same (auth events, event) pair got different verdicts: " ++ obs
+      | _ => bs "badargs"
+      end
+  | _ => bs "badargs"
+  end.
+
 Definition ops_C09 : list (bytes * (list bytes -> bytes)) :=
   [ (bs "C09.state_needed", run_state_needed);
     (bs "C09.needed_proto", run_needed_proto);
     (bs "C09.add_auth_events", run_add_auth_events);
     (bs "C09.sequence", run_sequence);
+    (bs "C09.repeat", run_repeat);
+    (bs "C09.prop.same_on_every_evaluation", prop_same_on_every_evaluation);
     (bs "C09.prop.add_auth_events_covers", prop_add_auth_events_covers);
     (bs "C09.prop.reuse_transparent", prop_reuse_transparent);
     (bs "C09.prop.invariance", prop_invariance);
